@@ -576,6 +576,51 @@ def gen_dest(rng, heap, root, maxlen, want_present, absent_tail, star_p=0.15):
     return steps
 
 
+def gen_star_case(rng, present=True):
+    """a regular nested target (2-3 levels of list / dict) whose leaves are lists / dicts / objects,
+    and a destination with one `*` per level: every leaf is a match, the final step addresses an
+    existing (or absent) slot of the leaves.  Returns (heap, root, steps)."""
+    heap = []
+    levels = rng.choice([1, 2, 2, 3])
+    leaf_kind = rng.choice(['list', 'list', 'dict', 'inst'])
+
+    def leaf():
+        a = len(heap)
+        n = rng.randint(1, 3)
+        if leaf_kind == 'list':
+            heap.append({'k': 'list', 'c': 'list', 'v': [jval(rng.choice([0, 1, 7, 'x'])) for _ in range(n)]})
+        elif leaf_kind == 'dict':
+            heap.append({'k': 'dict', 'c': 'dict', 'v': [[{'s': k}, jval(rng.choice([0, 1, 7]))]
+                                                         for k in ['a', 'b', 'c'][:n]]})
+        else:
+            heap.append({'k': 'inst', 'c': 'Obj', 'v': [[k, jval(rng.choice([0, 1, 7]))] for k in ['a', 'b', 'c'][:n]]})
+        return {'r': a}
+
+    def level(d):
+        if d == 0:
+            return leaf()
+        a = len(heap)
+        kind = rng.choice(['list', 'list', 'dict', 'tuple'])
+        cell = {'k': kind, 'c': kind, 'v': []}
+        heap.append(cell)
+        kids = [level(d - 1) for _ in range(rng.randint(1, 3))]
+        if kind == 'dict':
+            cell['v'] = [[{'s': 'k%d' % i}, k] for i, k in enumerate(kids)]
+        else:
+            cell['v'] = kids
+        return {'r': a}
+
+    root = level(levels)
+    steps = [('star', None)] * levels
+    if leaf_kind == 'list':
+        steps.append(('idx', {'i': 0 if present else 7}))
+    elif leaf_kind == 'dict':
+        steps.append(('key', {'s': 'a' if present else 'zz'}))
+    else:
+        steps.append(('attr', {'s': 'a' if present else 'zz'}))
+    return heap, root, steps
+
+
 def mutate_dest(rng, steps):
     """one-edit mutation stream: a bad segment / wrong access kind at a random position"""
     steps = list(steps)
